@@ -6,8 +6,8 @@ SPEC = dict(
               "and the i16 excess range (S3), every constructor x storage variant x position x operation against a stack matcher, "
               "in the default and simd builds (S5)",
     rule="inputs: ALL bit strings of length <=12 (quick) / <=16 (thorough); all vectors of <=2 (quick) / <=3 (thorough) words over W8 at every "
-         "word-boundary len; block families (special word s at position p in filler f, 9/33 (quick) or 7..65 (thorough) words); scale families "
-         "(nest 1^a0^b, flat (10)^m, wrapped 1(10)^m0, nestflat 1^a(10)^b0^a, prefixes = unbalanced tails, leading closes, closes-first, "
+         "word-boundary len; block families (special word s at position p in filler f, 9 and 33 (quick) or 7,8,9,31,32,33,65 (thorough) words); scale families "
+         "(nest 1^a0^b, flat (10)^m, wrapped 1(10)^m0, nestflat 1^a(10)^b0^a, prefixes = unbalanced tails, leading closes, closes-first, valleys with the bottom in every word of an L1 block and every L1 block of an L2 block, "
          "period-7 word-cyclic content) at every length in the boundary sets {c-2..c+2} of 64,128,512,2048,4096,65536,131072 and depths across "
          "32767/32768/49152/65536/98304, each also with single-bit flips at the boundary positions. Each input is built by every constructor "
          "(new, from_words(&/Vec), new_with_select, from_words_with_select, new_with_cspoppy(_config), from_words_with_cspoppy(_config); "
